@@ -30,7 +30,7 @@ Fails(e) ==
       allok == r.ok /\ \A i \in 1..Len(rs) : rs[i].ok
       gj == (r.j /\ \A i \in 1..Len(rs) : rs[i].j) \/ (r.j /\ ~r.ok) \/ \E i \in 1..Len(rs) : rs[i].j /\ ~rs[i].ok
       why == IF ~r.ok THEN r.why ELSE IF allok THEN "ok" ELSE rs[CHOOSE i \in 1..Len(rs) : ~rs[i].ok].why
-  IN IF ~gj THEN {}
+  IN IF ~gj THEN (IF allok /\ e.compiled THEN ProbeFails(e, r.t) ELSE {})     \* verdict not judged; what compiled is still probed
      ELSE IF allok # e.compiled THEN (IF e.mi = 1 THEN {F(e, "compile", IF allok THEN "ok" ELSE "refuse", why, 0, << >>)} ELSE {})
      ELSE IF ~allok THEN {}
      ELSE (IF d.has # e.hasDef \/ (d.has /\ d.v # e.def) THEN {F(e, "default", "ok", IF d.has THEN "inherited-default" ELSE "no-default", 0, d.v)} ELSE {})
